@@ -34,6 +34,8 @@ in non-malleable mode (`asserts_hold_nonmall`), and CAN fire in malleable mode
 import MsVerif.Lemmas.SatSound
 import MsVerif.Lemmas.SatAsserts
 import MsVerif.Thm.Bridge
+import MsVerif.Lemmas.SatSpend
+import MsVerif.Model.Validate
 
 namespace MsVerif.C01
 open MsVerif MsVerif.Script MsVerif.SatSpec
@@ -104,27 +106,255 @@ theorem top_level_sat_sound_exec (henv : EnvOk env cfg.ctx)
     (ms : Ms) (τ : Ty) (hwf : WF cfg.ctx ms) (hty : typeOf ms = some τ) (hB : τ.corr.base = .B)
     (w : List Ph) (hs : (satDissat cfg ms).sat.stack = .stack w)
     (hl : LocksMet env (satDissat cfg ms).sat) :
-    accepts env (encode cfg.env cfg.ctx ms) (stk σ w) = true := by
+    Script.accepts env (encode cfg.env cfg.ctx ms) (stk σ w) = true := by
   obtain ⟨v, ops, he, hv⟩ := top_level_sat_sound henv hag ms τ hwf hty hB w hs hl
   have hb := Bridge.exec_encode_eq_frag_nostack env cfg.env cfg.ctx ms ⟨stk σ w, [], 0⟩ [] rfl
     henv.stackLimits
-  unfold accepts State.init
+  unfold Script.accepts State.init
   rw [hb, he]
   simp [Except.map, hv]
 
 end main
 
+/-! ## T4 — acceptance under the real resource limits -/
+
+/-- Static, decidable resource conditions on a script and a witness template that are
+SUFFICIENT for the limits never to fire (they are cruder than the library's own figures):
+* every realised witness element has at most 520 bytes;
+* `|witness| + #{pushes, DUP, IFDUP, SIZE in the script} ≤ 1000` (each of those script elements
+  grows `stack + altstack` by at most one, nothing else grows it);
+* outside tapscript: `#{non-push opcodes} + 20·#{CHECKMULTISIG} ≤ 201` (every opcode counts
+  once whether executed or not; an executed CHECKMULTISIG adds its key count ≤ 20). -/
+structure Fits (tap : Bool) (σ : Ph → Bytes) (script : List Op) (w : List Ph) : Prop where
+  elem : ∀ p ∈ w, (σ p).length ≤ 520
+  depth : w.length + growCount script ≤ 1000
+  ops : tap = true ∨ codeCount script + 20 * msCount script ≤ 201
+
+section limits
+variable {env : Env} {σ : Ph → Bytes} {cfg : SatCfg}
+
+/-- **Limits ON.**  `env` is the limit-free environment of the T1/T2 theorems; `withLimits env o t`
+is the same environment with the opcode-count limit (201) and the stack limits (1000 elements,
+520-byte elements) set to `o`/`t` — `limitsOn env = withLimits env true true`.  For a script
+whose atoms are ≤ 520 bytes (`KeyEnv.Small`), hash outputs ≤ 520 bytes and a witness that `Fits`,
+the encoded script run by the flat interpreter WITH the limits enforced accepts the satisfaction.
+`_partial`: the resource hypothesis is the static sufficient condition `Fits`, not "the
+library's `validate` accepts the script under `Ctx.CONSENSUS`" (see
+`top_level_sat_sound_limits_full`). -/
+theorem top_level_sat_sound_limits_partial (henv : EnvOk env cfg.ctx)
+    (hag : Agrees env cfg.env cfg.assets σ)
+    (ms : Ms) (τ : Ty) (hwf : WF cfg.ctx ms) (hty : typeOf ms = some τ) (hB : τ.corr.base = .B)
+    (w : List Ph) (hs : (satDissat cfg ms).sat.stack = .stack w)
+    (hl : LocksMet env (satDissat cfg ms).sat)
+    (hke : Bridge.KeyEnv.Small cfg.env) (hhash : ∀ op b, (env.hash op b).length ≤ 520)
+    (hfit : Fits (decide (cfg.ctx = .tap)) σ (encode cfg.env cfg.ctx ms) w) (o t : Bool) :
+    Script.accepts (withLimits env o t) (encode cfg.env cfg.ctx ms) (stk σ w) = true := by
+  have hacc := top_level_sat_sound_exec henv hag ms τ hwf hty hB w hs hl
+  refine accepts_withLimits env henv.opLimit henv.stackLimits hhash o t _
+    (Bridge.encode_noBigPush _ _ hke ms) _ hacc ?_ ?_ ?_
+  · intro x hx
+    simp only [stk, List.mem_reverse, List.mem_map] at hx
+    obtain ⟨p, hp, rfl⟩ := hx
+    exact hfit.elem p hp
+  · simpa [stk] using hfit.depth
+  · rcases hfit.ops with h | h
+    · exact .inl (by rw [henv.tap]; exact h)
+    · exact .inr h
+
+/-- the statement with the library's own resource check as hypothesis: every script that
+`Miniscript::validate` accepts under the consensus limits of its context.  OPEN: it needs
+(i) the executed-opcode bound for scripts with `multi` (C09 `opcount_full`, unproved there) and
+(ii) soundness of `max_exec_stack_count`, which C09 documents as inexact (CHECKMULTISIG's
+pushes of k and n; the accumulator of a `thresh` dissatisfaction) — judged per run instead
+(`J exec` with the real flags, `J bound`). -/
+def top_level_sat_sound_limits_full : Prop :=
+  ∀ (env : Env) (σ : Ph → Bytes) (cfg : SatCfg) (K : KeyInfo) (ms : Ms) (τ : Ty) (w : List Ph),
+    EnvOk env cfg.ctx → Agrees env cfg.env cfg.assets σ → WF cfg.ctx ms → typeOf ms = some τ →
+    τ.corr.base = .B → (satDissat cfg ms).sat.stack = .stack w → LocksMet env (satDissat cfg ms).sat →
+    Bridge.KeyEnv.Small cfg.env → (∀ op b, (env.hash op b).length ≤ 520) →
+    (∀ p ∈ w, (σ p).length ≤ 520) →
+    isOk (validate cfg.env K cfg.ctx (Ctx.CONSENSUS cfg.ctx) ms) = true →
+    Script.accepts (limitsOn env) (encode cfg.env cfg.ctx ms) (stk σ w) = true
+
+end limits
+
+/-! ## T3 — descriptor level: the assembled (scriptSig, witness) passes `verifySpend`
+
+`Spend.verifySpend` (Spec/Spend.lean) is Core's `VerifyScript` for the standard output types
+WITH the real flags of each type — limits on, CLEANSTACK, push-only minimal scriptSig, witness
+element sizes.  The scriptPubKey is `Desc.scriptPubkey` (Model/Descriptor.lean), the
+(witness, scriptSig) pair is `Plan.getSatisfaction` (Model/Plan.lean: the assembly of
+`Descriptor::get_satisfaction{,_mall}` / `Plan::satisfy`) applied to the completed Miniscript
+witness `items σ w`.  Signature validity enters through `SpendEnv.sigOk` (per sighash domain),
+the hashes through `HashAgree`, the taproot commitment as the oracle `SpendEnv.tapCommitOk`. -/
+
+section descriptors
+open MsVerif.Desc MsVerif.Plan MsVerif.Spend
+
+theorem std_small {ke : KeyEnv} (h : KeyEnv.Std ke) : Bridge.KeyEnv.Small ke :=
+  ⟨fun k => by have := (h.1 k).2; omega, fun k => by have := (h.2.1 k).2; omega,
+   fun x => by have := (h.2.2.1 x).2; omega, fun kind x => by have := (h.2.2.2 kind x).2; omega⟩
+
+/-- everything the Miniscript-level theorems need, for a script of context `ctx` judged under
+the flag set `fl` (limits off) and sighash domain `dom` of transaction environment `e` -/
+structure MsSpend (e : SpendEnv) (P : Params) (ctx : Ctx) (fl : Flags) (dom : Nat)
+    (σ : Ph → Bytes) (mall rootHasSig : Bool) (a : Assets) (ms : Ms) (w : List Ph) : Prop where
+  flags : EnvOk (mkEnv e fl dom) ctx
+  agrees : Agrees (mkEnv e fl dom) P.env a σ
+  wf : WF ctx ms
+  typed : ∃ τ, typeOf ms = some τ ∧ τ.corr.base = .B
+  sat : (satDissat ⟨P.env, ctx, mall, rootHasSig, a⟩ ms).sat.stack = .stack w
+  locks : LocksMet (mkEnv e fl dom) (satDissat ⟨P.env, ctx, mall, rootHasSig, a⟩ ms).sat
+  std : KeyEnv.Std P.env
+  fits : Fits (decide (ctx = .tap)) σ (encode P.env ctx ms) w
+
+theorem msSpend_accepts {e : SpendEnv} {P : Params} {ctx : Ctx} {fl : Flags} {dom : Nat}
+    {σ : Ph → Bytes} {mall rhs : Bool} {a : Assets} {ms : Ms} {w : List Ph}
+    (h : MsSpend e P ctx fl dom σ mall rhs a ms w) (hH : HashAgree e P) (o t : Bool) :
+    Script.accepts (withLimits (mkEnv e fl dom) o t) (encode P.env ctx ms) (items σ w).reverse = true := by
+  obtain ⟨τ, hty, hB⟩ := h.typed
+  exact top_level_sat_sound_limits_partial (cfg := ⟨P.env, ctx, mall, rhs, a⟩) h.flags h.agrees ms τ
+    h.wf hty hB w h.sat h.locks (std_small h.std) hH.out_len h.fits o t
+
+/-- **wsh(ms)**: witness = items ++ [witness script], empty scriptSig. -/
+theorem wsh_spend_sound (e : SpendEnv) (P : Params) (hH : HashAgree e P) {σ : Ph → Bytes}
+    {mall rhs : Bool} {a : Assets} {ms : Ms} {w : List Ph}
+    (h : MsSpend e P .segwitv0 segwitFlagsOff DOM_SEGWITV0 σ mall rhs a ms w)
+    (hsize : (encodeBytes P.env .segwitv0 ms).length ≤ 10000) :
+    verifySpend e (Desc.scriptPubkey P (.wsh ms)) (descScriptSig P (.wsh ms) (items σ w))
+      (descWitness P (.wsh ms) (items σ w)) = .ok := by
+  show verifySpend e (serialize [.small 0, .push (P.H.sha256 (encodeBytes P.env .segwitv0 ms))]) []
+    (items σ w ++ [encodeBytes P.env .segwitv0 ms]) = .ok
+  rw [hH.sha256, verifySpend_p2wsh e _ (hH.sha256_len _)]
+  exact verifyWitnessV0_wsh e _ _ _ (parse_encodeBytes _ _ h.std ms) hsize
+    (by intro x hx; simp only [items, List.mem_map] at hx; obtain ⟨p, hp, rfl⟩ := hx
+        exact h.fits.elem p hp)
+    (msSpend_accepts h hH true true)
+
+/-- **sh(wsh(ms))**: scriptSig = the single push of the witness program, witness as for wsh. -/
+theorem sh_wsh_spend_sound (e : SpendEnv) (P : Params) (hH : HashAgree e P) {σ : Ph → Bytes}
+    {mall rhs : Bool} {a : Assets} {ms : Ms} {w : List Ph}
+    (h : MsSpend e P .segwitv0 segwitFlagsOff DOM_SEGWITV0 σ mall rhs a ms w)
+    (hsize : (encodeBytes P.env .segwitv0 ms).length ≤ 10000) :
+    verifySpend e (Desc.scriptPubkey P (.sh (.wsh ms))) (descScriptSig P (.sh (.wsh ms)) (items σ w))
+      (descWitness P (.sh (.wsh ms)) (items σ w)) = .ok := by
+  show verifySpend e
+    (serialize (newP2sh (P.H.hash160 (serialize [.small 0, .push (P.H.sha256 (encodeBytes P.env .segwitv0 ms))]))))
+    (Plan.pushSlice (serialize [.small 0, .push (P.H.sha256 (encodeBytes P.env .segwitv0 ms))]))
+    (items σ w ++ [encodeBytes P.env .segwitv0 ms]) = .ok
+  rw [hH.sha256, hH.hash160,
+    verifySpend_p2sh_segwit e _ (.p2wsh _) (.inl ⟨hH.sha256_len _, rfl⟩) (hH.hash160_len _)]
+  exact verifyWitnessV0_wsh e _ _ _ (parse_encodeBytes _ _ h.std ms) hsize
+    (by intro x hx; simp only [items, List.mem_map] at hx; obtain ⟨p, hp, rfl⟩ := hx
+        exact h.fits.elem p hp)
+    (msSpend_accepts h hH true true)
+
+/-- **sh(ms)** (legacy P2SH): scriptSig = `witness_to_scriptsig(items ++ [redeem script])`, no
+witness.  Extra hypotheses, all about sizes/shapes the spec checks: every realised element is
+`[]`, `[1]` or longer than 4 bytes (true of signatures, keys, preimages: shorter elements
+would be re-encoded as numbers by `witness_to_scriptsig`); the redeem script has 5..520 bytes;
+the scriptSig has at most 1650 bytes; the redeem script is not itself a v0 witness program. -/
+theorem sh_spend_sound (e : SpendEnv) (P : Params) (hH : HashAgree e P) {σ : Ph → Bytes}
+    {mall rhs : Bool} {a : Assets} {ms : Ms} {w : List Ph}
+    (h : MsSpend e P .legacy legacyFlagsOff DOM_LEGACY σ mall rhs a ms w)
+    (hitems : ∀ p ∈ w, ssItemOk (σ p))
+    (hred : 4 < (encodeBytes P.env .legacy ms).length ∧ (encodeBytes P.env .legacy ms).length ≤ 520)
+    (hss : (witnessToScriptSig (items σ w ++ [encodeBytes P.env .legacy ms])).length ≤ 1650)
+    (hnw : ∀ prog, encode P.env .legacy ms ≠ [.small 0, .push prog]) :
+    verifySpend e (Desc.scriptPubkey P (.sh (.ms ms))) (descScriptSig P (.sh (.ms ms)) (items σ w))
+      (descWitness P (.sh (.ms ms)) (items σ w)) = .ok := by
+  show verifySpend e (serialize (newP2sh (P.H.hash160 (encodeBytes P.env .legacy ms))))
+    (witnessToScriptSig (items σ w ++ [encodeBytes P.env .legacy ms])) [] = .ok
+  rw [hH.hash160]
+  exact verifySpend_p2sh_legacy e _ _ _
+    (by intro x hx; simp only [items, List.mem_map] at hx; obtain ⟨p, hp, rfl⟩ := hx
+        exact hitems p hp)
+    hred (hH.hash160_len _) hss (parse_encodeBytes _ _ h.std ms) hnw (msSpend_accepts h hH true true)
+
+/-- **tr(…) script path**: witness = items ++ [leaf script, control block].  The BIP341
+commitment of (control block, leaf script) to the output key is the ORACLE hypothesis
+`tapCommitOk` (C15 proves the library's control blocks verify against the Merkle root); the
+control block has a legal size and leaf version 0xc0. -/
+theorem tr_script_spend_sound (e : SpendEnv) (P : Params) (hH : HashAgree e P) {σ : Ph → Bytes}
+    {mall rhs : Bool} {a : Assets} {ms : Ms} {w : List Ph} (ik : Key) (leaves : List (Nat × Ms))
+    (h : MsSpend e P .tap tapFlagsOff DOM_TAPSCRIPT σ mall rhs a ms w)
+    (hkey : (P.trOutputKey ik (trLeafScripts P leaves)).length = 32)
+    (control : Bytes) (hc1 : 33 ≤ control.length) (hc2 : (control.length - 33) % 32 = 0)
+    (hc3 : control.length ≤ 33 + 32 * 128)
+    (hver : control.head?.map (· &&& 0xfe) = some 0xc0)
+    (hcommit : e.tapCommitOk control (encodeBytes P.env .tap ms)
+      (P.trOutputKey ik (trLeafScripts P leaves)) = true) :
+    verifySpend e (Desc.scriptPubkey P (.tr ik leaves))
+      (descScriptSig P (.tr ik leaves) (items σ w ++ [encodeBytes P.env .tap ms, control]))
+      (descWitness P (.tr ik leaves) (items σ w ++ [encodeBytes P.env .tap ms, control])) = .ok := by
+  show verifySpend e (serialize [.small 1, .push (P.trOutputKey ik (trLeafScripts P leaves))]) []
+    (items σ w ++ [encodeBytes P.env .tap ms, control]) = .ok
+  rw [verifySpend_p2tr e _ hkey]
+  exact verifyTaproot_script e _ _ _ _ _ (parse_encodeBytes _ _ h.std ms) hc1 hc2 hc3 hcommit hver
+    (by intro x hx; simp only [items, List.mem_map] at hx; obtain ⟨p, hp, rfl⟩ := hx
+        exact h.fits.elem p hp)
+    (msSpend_accepts h hH false true)
+
+/-- **tr(…) key path**: witness = [signature for the output key]. -/
+theorem tr_key_spend_sound (e : SpendEnv) (P : Params) (ik : Key) (leaves : List (Nat × Ms))
+    (hkey : (P.trOutputKey ik (trLeafScripts P leaves)).length = 32) (sig : Bytes)
+    (hsig : e.sigOk DOM_TAPKEY (P.trOutputKey ik (trLeafScripts P leaves)) sig = true) :
+    verifySpend e (Desc.scriptPubkey P (.tr ik leaves)) (descScriptSig P (.tr ik leaves) [sig])
+      (descWitness P (.tr ik leaves) [sig]) = .ok := by
+  show verifySpend e (serialize [.small 1, .push (P.trOutputKey ik (trLeafScripts P leaves))]) []
+    [sig] = .ok
+  rw [verifySpend_p2tr e _ hkey]
+  exact verifyTaproot_key e _ _ hsig
+
+/-- **wpkh(K)**: witness = [signature, key]; `sig`/`pk` are what `Wpkh::get_satisfaction` looks
+up (`lookup_ecdsa_sig`) resp. serialises. -/
+theorem wpkh_spend_sound (e : SpendEnv) (P : Params) (hH : HashAgree e P) (k : Key) (sig : Bytes)
+    (hpk : pubkeyOk (mkEnv e segwitFlags DOM_SEGWITV0) (P.env.ser k) = true) (hne : sig ≠ [])
+    (hsig : e.sigOk DOM_SEGWITV0 (P.env.ser k) sig = true) (hlen : (P.env.ser k).length ≤ 520) :
+    verifySpend e (Desc.scriptPubkey P (.wpkh k)) (descScriptSig P (.wpkh k) [sig, P.env.ser k])
+      (descWitness P (.wpkh k) [sig, P.env.ser k]) = .ok := by
+  show verifySpend e (serialize [.small 0, .push (P.H.hash160 (P.env.ser k))]) []
+    [sig, P.env.ser k] = .ok
+  rw [hH.hash160, verifySpend_p2wpkh e _ (hH.hash160_len _)]
+  exact verifyWitnessV0_wpkh e sig _ hpk hne hsig hlen (hH.out_len _ _)
+
+/-- **sh(wpkh(K))**: scriptSig = push of the witness program, witness = [signature, key]. -/
+theorem sh_wpkh_spend_sound (e : SpendEnv) (P : Params) (hH : HashAgree e P) (k : Key) (sig : Bytes)
+    (hpk : pubkeyOk (mkEnv e segwitFlags DOM_SEGWITV0) (P.env.ser k) = true) (hne : sig ≠ [])
+    (hsig : e.sigOk DOM_SEGWITV0 (P.env.ser k) sig = true) (hlen : (P.env.ser k).length ≤ 520) :
+    verifySpend e (Desc.scriptPubkey P (.sh (.wpkh k)))
+      (descScriptSig P (.sh (.wpkh k)) [sig, P.env.ser k])
+      (descWitness P (.sh (.wpkh k)) [sig, P.env.ser k]) = .ok := by
+  show verifySpend e
+    (serialize (newP2sh (P.H.hash160 (serialize [.small 0, .push (P.H.hash160 (P.env.ser k))]))))
+    (Plan.pushSlice (serialize [.small 0, .push (P.H.hash160 (P.env.ser k))]))
+    [sig, P.env.ser k] = .ok
+  rw [hH.hash160, hH.hash160,
+    verifySpend_p2sh_segwit e _ (.p2wpkh _) (.inr ⟨hH.hash160_len _, rfl⟩) (hH.hash160_len _)]
+  exact verifyWitnessV0_wpkh e sig _ hpk hne hsig hlen (hH.out_len _ _)
+
+end descriptors
+
 /-! ## The `assert!`s of the satisfier (not modelled as panics) -/
 
-/-- **Where the asserts provably hold**: non-malleable mode (and `k ≤ n` at every `thresh`,
-which `Threshold::new` guarantees): for every well-typed script and every asset set none of the
-`assert!`s in `sat_dissat` (or_b / or_c / or_d) and `Satisfaction::thresh` fires. -/
+/-- **No `assert!` of the satisfier can fire.**  `assertsOk c ms` (Lemmas/SatAsserts.lean)
+mirrors the asserts of the current code: `assert!(malleable || !l_dis.has_sig)` (and `r_dis`)
+in the or_b / or_c / or_d arms of `sat_dissat`, and `assert!(!sat.has_sig)` in the UNAVAILABLE
+branch of the non-malleable `Satisfaction::thresh`.  For every well-typed script (with `k ≤ n`
+at every `thresh`, which `Threshold::new` guarantees), every asset set and BOTH modes it holds:
+in malleable mode the asserts are disabled, in non-malleable mode every dissatisfaction of a
+`d`-typed fragment is signature-free (`dissat_clean_nonmall`). -/
+theorem asserts_hold (c : SatCfg) (ms : Ms) (τ : Ty) (hty : typeOf ms = some τ)
+    (hk : threshKOk ms = true) : assertsOk c ms = true :=
+  SatSpec.asserts_hold c ms τ hty hk
+
+/-- the non-malleable half on its own -/
 theorem asserts_hold_nonmall (c : SatCfg) (hm : c.mall = false) (ms : Ms) (τ : Ty)
     (hty : typeOf ms = some τ) (hk : threshKOk ms = true) :
     assertsOk c ms = true :=
   SatSpec.asserts_hold_nonmall c hm ms τ hty hk
 
-/-- under the same hypotheses every dissatisfaction computed for a `d`-typed fragment is
+/-- non-malleable mode: every dissatisfaction computed for a `d`-typed fragment is
 signature-free, lock-free and not IMPOSSIBLE -/
 theorem dissat_clean_nonmall (c : SatCfg) (hm : c.mall = false) (ms : Ms) (τ : Ty)
     (hty : typeOf ms = some τ) (hk : threshKOk ms = true) (hd : τ.corr.dissat = true) :
@@ -132,158 +362,300 @@ theorem dissat_clean_nonmall (c : SatCfg) (hm : c.mall = false) (ms : Ms) (τ : 
       (satDissat c ms).dissat.abs = none ∧ (satDissat c ms).dissat.rel = none :=
   SatSpec.dissat_clean_nonmall c hm ms τ hty hk hd
 
-/-- `or_d(or_i(j:and_v(v:pk(K0),pk(K1)),and_v(v:pk(K2),0)),pk(K3))` with a signature for K2
-only made `assert!(!l_dis.has_sig)` (`Terminal::OrD`) fire — a panic on a sane script through
-`Miniscript::satisfy` / `Descriptor::get_satisfaction` — while `Terminal::NonZero` reported
-its dissatisfaction as IMPOSSIBLE (finding F3).  With the fix (`j:` dissatisfies with one
-empty push, mirrored in the model) the script is silent. -/
-theorem asserts_exA_silent :
-    (typeOf exA).map (fun t => (t.corr.base, t.mall.nonMall, t.mall.signed)) = some (.B, true, true) ∧
-    assertsOk cfgA exA = true := by decide
+/-- the two scripts on which asserts fired before the fixes are silent now:
+`or_d(or_i(j:and_v(v:pk(K0),pk(K1)),and_v(v:pk(K2),0)),pk(K3))` (non-malleable mode, signature
+for K2; `j:` used to report its dissatisfaction as IMPOSSIBLE), and
+`or_d(or_i(and_b(or_i(0,and_v(v:older(1),0)),a:or_i(0,and_v(v:older(4194305),0))),and_v(v:pk(K2),0)),pk(K3))`
+(malleable mode: the left child of `or_d` still gets a dissatisfaction carrying a signature,
+which is legitimate there — the assert is now `malleable || …`) -/
+theorem asserts_former_counterexamples_silent :
+    (typeOf exA).isSome = true ∧ assertsOk cfgA exA = true ∧
+    (typeOf exB).isSome = true ∧ assertsOk cfgB exB = true ∧
+    (satDissat cfgB (.orI (.andB (Asserts.dl 1) (.alt (Asserts.dl 4194305)))
+      (.andV (.verify (Asserts.pk 2)) .fls))).dissat.hasSig = true := by decide
 
-/-- **In malleable mode the asserts can still fire**: mixed height/time relative locks in an
-`and_b` make its dissatisfaction IMPOSSIBLE, so `minimum_mall` hands `or_d` a dissatisfaction
-with a signature
-(`or_d(or_i(and_b(or_i(0,and_v(v:older(1),0)),a:or_i(0,and_v(v:older(4194305),0))),and_v(v:pk(K2),0)),pk(K3))`,
-signature for K2, `check_older` true; reproduced on the library: `satisfy_malleable` and
-`get_satisfaction_mall` on `wsh(…)` panic at sat_dissat.rs, `Terminal::OrD`). -/
-theorem asserts_fail_mall : (typeOf exB).isSome = true ∧ assertsOk cfgB exB = false := by decide
+/-- the side condition `k ≤ n` cannot be dropped IN THE MODEL (`typeOf` ignores `k`; the Rust
+type `Threshold` makes `k > n` unrepresentable): `thresh(2, pk(K0))` -/
+theorem asserts_need_k_le_n :
+    (typeOf exK).isSome = true ∧ threshKOk exK = false ∧ assertsOk cfgA exK = false :=
+  exK_facts
 
-/-- the unrestricted claim "no assert fires on a well-typed script, in either mode" … -/
-def asserts_hold_full : Prop :=
-  ∀ (c : SatCfg) (ms : Ms) (τ : Ty), typeOf ms = some τ → assertsOk c ms = true
+/-! ## Non-vacuity: a toy world in which every hypothesis holds
 
-/-- … is false (malleable mode, `asserts_fail_mall`). -/
-theorem asserts_hold_full_false : ¬ asserts_hold_full :=
-  SatSpec.asserts_hold_full_false
-
-/-! ## Non-vacuity: a toy world in which every hypothesis holds -/
+One script with a threshold, a hash and a lock, `and_v(v:thresh(2,pk(K0),s:pk(K1),a:sha256(H0)),
+or_d(pk(K2),older(144)))`, in the segwit-v0, legacy and tapscript contexts; every theorem above
+that carries `EnvOk` / `Agrees` / `MsSpend` is instantiated on it. -/
 
 namespace Ex
+open MsVerif.Desc MsVerif.Plan MsVerif.Spend
 
-/-- 33-byte "compressed keys" `02 00…00 k` -/
-def ser (k : Key) : Bytes := 2 :: (List.replicate 31 0 ++ [UInt8.ofNat k])
+/-- keys: 33 bytes `02 00…00 k` outside Tap, 32 bytes `00…00 k` in Tap -/
+def ser (tap : Bool) (k : Key) : Bytes :=
+  if tap then List.replicate 31 0 ++ [UInt8.ofNat k] else 2 :: (List.replicate 31 0 ++ [UInt8.ofNat k])
 /-- 32-byte preimages `09…09 h` -/
 def pre (h : Nat) : Bytes := List.replicate 31 9 ++ [UInt8.ofNat h]
-/-- toy hash: append a byte (injective, so "collision free") -/
-def toyHash (b : Bytes) : Bytes := b ++ [7]
+/-- toy hash with the standard output sizes: the first 32 (20) bytes of the input, padded -/
+def toyHash (op : HashOp) (b : Bytes) : Bytes :=
+  match op with
+  | .sha256 | .hash256 => (b ++ List.replicate 32 7).take 32
+  | .ripemd160 | .hash160 => (b ++ List.replicate 20 7).take 20
 
-def ke : KeyEnv where
-  ser := ser
-  sortKey := ser
-  pkh k := toyHash (ser k)
-  rawPkh h := toyHash (ser h)
-  hashVal _ h := toyHash (pre h)
+def ke (tap : Bool) : KeyEnv where
+  ser := ser tap
+  sortKey := ser tap
+  pkh k := toyHash .hash160 (ser tap k)
+  rawPkh h := toyHash .hash160 (ser tap h)
+  hashVal kind h := toyHash (hashOpOf kind) (pre h)
 
-/-- segwit-v0 standardness flags, limits off; a signature is valid iff it is `key ++ [1]` -/
-def tEnv (lockTime seq : Nat) : Env where
-  flags := ⟨false, true, true, true, true, false, false⟩
-  sigOk pk sig := sig == pk ++ [1]
-  hash _ b := toyHash b
+/-- transaction environment: a signature is valid (in every sighash domain) iff it is
+`key ++ [1]`; every taproot commitment is declared valid (it is an oracle) -/
+def tE (lockTime seq : Nat) : SpendEnv where
+  sigOk _ pk sig := sig == pk ++ [1]
+  hash := toyHash
+  tapCommitOk _ _ _ := true
   nLockTime := lockTime
   nSequence := seq
   txVersion := 2
 
-def tσ : Ph → Bytes
-  | .pubkey k _ => ser k
-  | .pubkeyHash h _ => ser h
-  | .ecdsaSig k => ser k ++ [1]
-  | .ecdsaSigPkh h => ser h ++ [1]
-  | .schnorrSig k _ => ser k ++ [1]
-  | .schnorrSigPkh h _ => ser h ++ [1]
+def P (tap : Bool) : Params := ⟨⟨toyHash .sha256, toyHash .hash160⟩, ke tap, fun _ _ => List.replicate 32 5⟩
+
+def tσ (tap : Bool) : Ph → Bytes
+  | .pubkey k _ => ser tap k
+  | .pubkeyHash h _ => ser tap h
+  | .ecdsaSig k => ser tap k ++ [1]
+  | .ecdsaSigPkh h => ser tap h ++ [1]
+  | .schnorrSig k _ => ser tap k ++ [1]
+  | .schnorrSigPkh h _ => ser tap h ++ [1]
   | .preimage _ h => pre h
   | .hashDissat => List.replicate 32 0
   | .pushOne => [1]
   | .pushZero => []
 
 def pk (k : Key) : Ms := .check (.pkK k)
+/-- `thresh(2,pk(K0),s:pk(K1),a:sha256(H0))` -/
+def thr : Ms := .thresh 2 (.cons (pk 0) (.cons (.swap (pk 1)) (.cons (.alt (.hash .sha256 0)) .nil)))
+/-- `and_v(v:thresh(2,pk(K0),s:pk(K1),a:sha256(H0)),or_d(pk(K2),older(144)))` -/
+def ms : Ms := .andV (.verify thr) (.orD (pk 2) (.older 144))
+def ty : Ty := ⟨⟨.B, .any, false, false⟩, ⟨.none, true, false⟩⟩
+def thrTy : Ty := ⟨⟨.B, .any, true, true⟩, ⟨.unknown, true, false⟩⟩
 
-/-- `and_v(v:pk(K0),or_d(pk(K1),older(144)))` -/
-def ms : Ms := .andV (.verify (pk 0)) (.orD (pk 1) (.older 144))
-def ty : Ty := ⟨⟨.B, .anyNonZero, false, false⟩, ⟨.none, true, true⟩⟩
+/-- the caller holds: a signature for K0, the preimage of H0, and 144 blocks have passed -/
+def assets : Assets :=
+  ⟨fun k => k == 0, fun k => if k == 0 then some 64 else none, fun _ => none, fun _ => none,
+   fun _ => none, fun k h => k == .sha256 && h == 0, fun n => n == 144, fun _ => false⟩
 
-def noAssets : Assets :=
-  ⟨fun _ => false, fun _ => none, fun _ => none, fun _ => none, fun _ => none,
-   fun _ _ => false, fun _ => false, fun _ => false⟩
-/-- signatures for K0 and K1 -/
-def assets1 : Assets := { noAssets with ecdsaSig := fun k => k == 0 || k == 1 }
-/-- signature for K0 only, and 144 blocks have passed -/
-def assets2 : Assets := { noAssets with ecdsaSig := fun k => k == 0, checkOlder := fun n => n == 144 }
+def cfg (ctx : Ctx) (mall : Bool) : SatCfg := ⟨ke (decide (ctx = .tap)), ctx, mall, true, assets⟩
 
-def cfg1 : SatCfg := ⟨ke, .segwitv0, false, true, assets1⟩
-def cfg2 : SatCfg := ⟨ke, .segwitv0, false, true, assets2⟩
-def cfg2mall : SatCfg := { cfg2 with mall := true }
+/-- what the satisfier answers: `[<>, preimage, <>, sig(K0)]`, reporting `older(144)` -/
+def w : List Ph := [.pushZero, .preimage .sha256 0, .pushZero, .ecdsaSig 0]
+def wTap : List Ph := [.pushZero, .preimage .sha256 0, .pushZero, .schnorrSig 0 64]
 
 end Ex
 
 section toy
-open Ex
+open Ex MsVerif.Desc MsVerif.Plan MsVerif.Spend
 
-theorem ex_envOk (lt sq : Nat) : EnvOk (tEnv lt sq) .segwitv0 := ⟨rfl, rfl, rfl⟩
+theorem ex_sat : (∀ mall, (satDissat (cfg .segwitv0 mall) Ex.ms).sat = ⟨.stack w, true, none, some 144⟩) ∧
+    (∀ mall, (satDissat (cfg .legacy mall) Ex.ms).sat = ⟨.stack w, true, none, some 144⟩) ∧
+    (∀ mall, (satDissat (cfg .tap mall) Ex.ms).sat = ⟨.stack wTap, true, none, some 144⟩) ∧
+    (satDissat (cfg .segwitv0 false) thr).dissat = ⟨.stack [.hashDissat, .pushZero, .pushZero], false, none, none⟩ := by
+  decide
 
-theorem ex_keyOk (lt sq : Nat) (k : Key) : pubkeyOk (tEnv lt sq) (ser k) = true := by
-  simp [pubkeyOk, tEnv, ser]
+theorem ex_typed : typeOf Ex.ms = some ty ∧ typeOf thr = some thrTy := by decide
+theorem ex_wf (ctx : Ctx) : WF ctx Ex.ms ∧ WF ctx thr := by
+  simp [Ex.ms, thr, pk, WF, WFs, MsList.length]
+
+theorem ex_keyOk (fl : Flags) (lt sq dom : Nat) (k : Key) :
+    pubkeyOk (mkEnv (tE lt sq) fl dom) (ser fl.tapscript k) = true := by
+  cases h : fl.tapscript <;> simp [pubkeyOk, mkEnv, ser, h]
+
+theorem toyHash_len (op : HashOp) (b : Bytes) : (toyHash op b).length ≤ 520 := by
+  cases op <;> simp [toyHash] <;> omega
 
 /-- in the toy world every signature/preimage the satisfier could hold is genuine, so `Agrees`
-holds for EVERY asset set -/
-theorem ex_agrees (lt sq : Nat) (a : Assets) : Agrees (tEnv lt sq) ke a tσ where
+holds for EVERY asset set, in every flag set and sighash domain -/
+theorem ex_agrees (fl : Flags) (lt sq dom : Nat) (a : Assets) :
+    Agrees (mkEnv (tE lt sq) fl dom) (ke fl.tapscript) a (tσ fl.tapscript) where
   pushOne := rfl
   pushZero := rfl
   hashDissat := rfl
-  keyShape := ex_keyOk lt sq
+  keyShape := ex_keyOk fl lt sq dom
   pkh _ := rfl
   pubkey _ _ := rfl
-  ecdsa k _ := ⟨by simp [tσ], by simp [tEnv, tσ, ke]⟩
-  schnorr k _ _ := ⟨by simp [tσ], by simp [tEnv, tσ, ke]⟩
-  rawPk h _ _ := ⟨rfl, ex_keyOk lt sq h⟩
-  rawEcdsa h _ _ _ := ⟨by simp [tσ], by simp [tEnv, tσ]⟩
-  rawSchnorr h _ _ _ _ := ⟨by simp [tσ], by simp [tEnv, tσ]⟩
+  ecdsa k _ := ⟨by simp [tσ], by simp [mkEnv, tE, tσ, ke]⟩
+  schnorr k _ _ := ⟨by simp [tσ], by simp [mkEnv, tE, tσ, ke]⟩
+  rawPk h _ _ := ⟨rfl, ex_keyOk fl lt sq dom h⟩
+  rawEcdsa h _ _ _ := ⟨by simp [tσ], by simp [mkEnv, tE, tσ]⟩
+  rawSchnorr h _ _ _ _ := ⟨by simp [tσ], by simp [mkEnv, tE, tσ]⟩
   preimage _ h _ := ⟨by simp [tσ, pre], rfl⟩
-  zeroNoPreimage _ h := by
+  zeroNoPreimage kind h := by
     intro e
     have := congrArg List.head? e
-    simp [tEnv, ke, toyHash, pre, List.replicate] at this
-  sizeOk p := by cases p <;> simp [tσ, ser, pre]
+    cases kind <;> simp [mkEnv, tE, ke, toyHash, hashOpOf, pre, List.replicate] at this
+  sizeOk p := by cases p <;> cases h : fl.tapscript <;> simp [tσ, ser, pre]
 
-theorem ex_typed : typeOf ms = some ty := by decide
-theorem ex_wf : WF .segwitv0 ms := by simp [ms, pk, WF]
+theorem ex_std (tap : Bool) : KeyEnv.Std (ke tap) := by
+  refine ⟨fun k => ?_, fun k => ?_, fun k => ?_, fun kind k => ?_⟩
+  · cases tap <;> simp [ke, ser]
+  · simp [ke, toyHash]
+  · simp [ke, toyHash]
+  · cases kind <;> simp [ke, toyHash, hashOpOf]
+
+theorem ex_hashAgree (tap : Bool) (lt sq : Nat) : HashAgree (tE lt sq) (P tap) where
+  sha256 _ := rfl
+  hash160 _ := rfl
+  sha256_len b := by simp [tE, toyHash]
+  hash160_len b := by simp [tE, toyHash]
+  out_len := toyHash_len
+
+theorem ex_envOk (lt sq : Nat) :
+    EnvOk (mkEnv (tE lt sq) segwitFlagsOff DOM_SEGWITV0) .segwitv0 ∧
+    EnvOk (mkEnv (tE lt sq) legacyFlagsOff DOM_LEGACY) .legacy ∧
+    EnvOk (mkEnv (tE lt sq) tapFlagsOff DOM_TAPSCRIPT) .tap :=
+  ⟨⟨rfl, rfl, rfl⟩, ⟨rfl, rfl, rfl⟩, ⟨rfl, rfl, rfl⟩⟩
+
+theorem ex_locks (ctx : Ctx) (fl : Flags) (dom : Nat) (mall : Bool)
+    (h : (satDissat (cfg ctx mall) Ex.ms).sat.abs = none ∧ (satDissat (cfg ctx mall) Ex.ms).sat.rel = some 144) :
+    LocksMet (mkEnv (tE 0 144) fl dom) (satDissat (cfg ctx mall) Ex.ms).sat := by
+  refine ⟨fun n hn => ?_, fun n hn => ?_⟩
+  · rw [h.1] at hn; cases hn
+  · rw [h.2] at hn; cases hn
+    simp [checkSequence, mkEnv, tE, seqMasked, SEQ_DISABLE, SEQ_TYPE, SEQ_MASK]
+
+/-- the resource conditions hold for the example in all three contexts -/
+theorem ex_fits :
+    Fits false (tσ false) (encode (ke false) .segwitv0 Ex.ms) w ∧
+    Fits false (tσ false) (encode (ke false) .legacy Ex.ms) w ∧
+    Fits true (tσ true) (encode (ke true) .tap Ex.ms) wTap := by
+  refine ⟨⟨by decide, by decide, by decide⟩, ⟨by decide, by decide, by decide⟩,
+    ⟨by decide, by decide, by decide⟩⟩
+
+/-- `MsSpend` for the example: segwit v0 (both modes) -/
+theorem ex_msSpend_segwit (mall : Bool) :
+    MsSpend (tE 0 144) (P false) .segwitv0 segwitFlagsOff DOM_SEGWITV0 (tσ false) mall true assets Ex.ms w where
+  flags := (ex_envOk 0 144).1
+  agrees := ex_agrees segwitFlagsOff 0 144 DOM_SEGWITV0 assets
+  wf := (ex_wf _).1
+  typed := ⟨ty, ex_typed.1, rfl⟩
+  sat := by have := ex_sat.1 mall; simp only [cfg] at this; exact congrArg Sat.stack this
+  locks := by
+    have := ex_sat.1 mall
+    exact ex_locks .segwitv0 segwitFlagsOff DOM_SEGWITV0 mall ⟨by rw [this], by rw [this]⟩
+  std := ex_std false
+  fits := ex_fits.1
+
+theorem ex_msSpend_legacy (mall : Bool) :
+    MsSpend (tE 0 144) (P false) .legacy legacyFlagsOff DOM_LEGACY (tσ false) mall true assets Ex.ms w where
+  flags := (ex_envOk 0 144).2.1
+  agrees := ex_agrees legacyFlagsOff 0 144 DOM_LEGACY assets
+  wf := (ex_wf _).1
+  typed := ⟨ty, ex_typed.1, rfl⟩
+  sat := by have := ex_sat.2.1 mall; simp only [cfg] at this; exact congrArg Sat.stack this
+  locks := by
+    have := ex_sat.2.1 mall
+    exact ex_locks .legacy legacyFlagsOff DOM_LEGACY mall ⟨by rw [this], by rw [this]⟩
+  std := ex_std false
+  fits := ex_fits.2.1
+
+theorem ex_msSpend_tap (mall : Bool) :
+    MsSpend (tE 0 144) (P true) .tap tapFlagsOff DOM_TAPSCRIPT (tσ true) mall true assets Ex.ms wTap where
+  flags := (ex_envOk 0 144).2.2
+  agrees := ex_agrees tapFlagsOff 0 144 DOM_TAPSCRIPT assets
+  wf := (ex_wf _).1
+  typed := ⟨ty, ex_typed.1, rfl⟩
+  sat := by have := ex_sat.2.2.1 mall; simp only [cfg] at this; exact congrArg Sat.stack this
+  locks := by
+    have := ex_sat.2.2.1 mall
+    exact ex_locks .tap tapFlagsOff DOM_TAPSCRIPT mall ⟨by rw [this], by rw [this]⟩
+  std := ex_std true
+  fits := ex_fits.2.2
 
 end toy
 
-open Ex in
-/-- asset set 1 (both signatures): the satisfier answers `[sig(K1), sig(K0)]`, no locks; all
-hypotheses of `top_level_sat_sound_exec` are met with any transaction -/
-example : (satDissat cfg1 Ex.ms).sat = ⟨.stack [.ecdsaSig 1, .ecdsaSig 0], true, none, none⟩ ∧
-    accepts (tEnv 0 0) (encode ke .segwitv0 Ex.ms) (stk tσ [.ecdsaSig 1, .ecdsaSig 0]) = true :=
-  ⟨by decide, top_level_sat_sound_exec (cfg := cfg1) (ex_envOk 0 0) (ex_agrees 0 0 _) Ex.ms ty ex_wf ex_typed rfl _
-    (by decide) (by simp [LocksMet]; decide)⟩
+section examples
+open Ex MsVerif.Desc MsVerif.Plan MsVerif.Spend
 
-open Ex in
-/-- asset set 2 (K0 + `older(144)`): the satisfier answers `[<empty>, sig(K0)]` and REPORTS the
-relative lock 144 — in non-malleable and in malleable mode; a transaction with nSequence = 144
-(version 2) meets it -/
-example : (satDissat cfg2 Ex.ms).sat = ⟨.stack [.pushZero, .ecdsaSig 0], true, none, some 144⟩ ∧
-    (satDissat cfg2mall Ex.ms).sat = ⟨.stack [.pushZero, .ecdsaSig 0], true, none, some 144⟩ ∧
-    accepts (tEnv 0 144) (encode ke .segwitv0 Ex.ms) (stk tσ [.pushZero, .ecdsaSig 0]) = true :=
-  ⟨by decide, by decide,
-   top_level_sat_sound_exec (cfg := cfg2mall) (ex_envOk 0 144) (ex_agrees 0 144 _) Ex.ms ty ex_wf ex_typed rfl _
-    (by decide) (by simp [LocksMet]; decide)⟩
+/-- `sat_sound`, `witness_shape`, `top_level_sat_sound{,_exec}` on the example (both modes):
+the transaction has nSequence = 144 -/
+example (mall : Bool) :
+    SatRuns (mkEnv (tE 0 144) segwitFlagsOff DOM_SEGWITV0) (ke false) .segwitv0 (tσ false) ty.corr Ex.ms w ∧
+    Shape (tσ false) ty.corr (satDissat (cfg .segwitv0 mall) Ex.ms) ∧
+    Script.accepts (mkEnv (tE 0 144) segwitFlagsOff DOM_SEGWITV0) (encode (ke false) .segwitv0 Ex.ms)
+      (stk (tσ false) w) = true :=
+  have h := ex_msSpend_segwit mall
+  ⟨sat_sound (cfg := cfg .segwitv0 mall) h.flags h.agrees Ex.ms ty h.wf ex_typed.1 w h.sat h.locks,
+   witness_shape (cfg := cfg .segwitv0 mall) h.agrees Ex.ms ty h.wf ex_typed.1,
+   top_level_sat_sound_exec (cfg := cfg .segwitv0 mall) h.flags h.agrees Ex.ms ty h.wf ex_typed.1 rfl w
+     h.sat h.locks⟩
 
-open Ex in
-/-- the conclusions also compute: direct evaluation of the flat interpreter (independent of the
-theorems), and the lock really matters (nSequence one below the reported lock is rejected) -/
+/-- `dissat_sound` on the threshold: its dissatisfaction `[z32, <>, <>]` leaves the empty vector -/
+example : DisRuns (mkEnv (tE 0 0) segwitFlagsOff DOM_SEGWITV0) (ke false) .segwitv0 (tσ false)
+    thrTy.corr thr [.hashDissat, .pushZero, .pushZero] :=
+  dissat_sound (cfg := cfg .segwitv0 false) ⟨rfl, rfl, rfl⟩
+    (ex_agrees segwitFlagsOff 0 0 DOM_SEGWITV0 assets) thr thrTy (ex_wf _).2 ex_typed.2 _
+    (congrArg Sat.stack ex_sat.2.2.2) (by rw [ex_sat.2.2.2]; simp [LocksMet])
+
+/-- `top_level_sat_sound_limits_partial`: accepted WITH the 201-opcode, 1000-element and
+520-byte limits on -/
+example (mall : Bool) :
+    Script.accepts (limitsOn (mkEnv (tE 0 144) segwitFlagsOff DOM_SEGWITV0))
+      (encode (ke false) .segwitv0 Ex.ms) (stk (tσ false) w) = true :=
+  msSpend_accepts (ex_msSpend_segwit mall) (ex_hashAgree false 0 144) true true
+
+/-- the descriptor-level theorems on the example: `wsh`, `sh(wsh)`, `sh`, `tr` script path
+(any control block of legal size and leaf version, here 33 bytes `c0 00…`), both modes -/
+example (mall : Bool) :
+    verifySpend (tE 0 144) (Desc.scriptPubkey (P false) (.wsh Ex.ms))
+      (descScriptSig (P false) (.wsh Ex.ms) (items (tσ false) w))
+      (descWitness (P false) (.wsh Ex.ms) (items (tσ false) w)) = .ok ∧
+    verifySpend (tE 0 144) (Desc.scriptPubkey (P false) (.sh (.wsh Ex.ms)))
+      (descScriptSig (P false) (.sh (.wsh Ex.ms)) (items (tσ false) w))
+      (descWitness (P false) (.sh (.wsh Ex.ms)) (items (tσ false) w)) = .ok ∧
+    verifySpend (tE 0 144) (Desc.scriptPubkey (P false) (.sh (.ms Ex.ms)))
+      (descScriptSig (P false) (.sh (.ms Ex.ms)) (items (tσ false) w))
+      (descWitness (P false) (.sh (.ms Ex.ms)) (items (tσ false) w)) = .ok ∧
+    verifySpend (tE 0 144) (Desc.scriptPubkey (P true) (.tr 7 [(0, Ex.ms)]))
+      (descScriptSig (P true) (.tr 7 [(0, Ex.ms)])
+        (items (tσ true) wTap ++ [encodeBytes (ke true) .tap Ex.ms, 0xc0 :: List.replicate 32 0]))
+      (descWitness (P true) (.tr 7 [(0, Ex.ms)])
+        (items (tσ true) wTap ++ [encodeBytes (ke true) .tap Ex.ms, 0xc0 :: List.replicate 32 0])) = .ok :=
+  ⟨wsh_spend_sound _ _ (ex_hashAgree false 0 144) (ex_msSpend_segwit mall) (by decide +kernel),
+   sh_wsh_spend_sound _ _ (ex_hashAgree false 0 144) (ex_msSpend_segwit mall) (by decide +kernel),
+   sh_spend_sound _ _ (ex_hashAgree false 0 144) (ex_msSpend_legacy mall)
+     (by intro p hp; simp [w] at hp; rcases hp with rfl | rfl | rfl | rfl <;> simp [ssItemOk, tσ, ser, pre])
+     (by decide +kernel) (by decide +kernel)
+     (by intro prog h; have := congrArg List.length h
+         simp only [List.length_cons, List.length_nil] at this; revert this; decide +kernel),
+   tr_script_spend_sound _ _ (ex_hashAgree true 0 144) 7 [(0, Ex.ms)] (ex_msSpend_tap mall) (by decide)
+     (0xc0 :: List.replicate 32 0) (by decide) (by decide) (by decide) (by decide) rfl⟩
+
+/-- `wpkh`, `sh(wpkh)`, `tr` key path -/
 example :
-    accepts (tEnv 0 0) (encode ke .segwitv0 Ex.ms) (stk tσ [.ecdsaSig 1, .ecdsaSig 0]) = true ∧
-    accepts (tEnv 0 144) (encode ke .segwitv0 Ex.ms) (stk tσ [.pushZero, .ecdsaSig 0]) = true ∧
-    accepts (tEnv 0 143) (encode ke .segwitv0 Ex.ms) (stk tσ [.pushZero, .ecdsaSig 0]) = false := by
+    verifySpend (tE 0 0) (Desc.scriptPubkey (P false) (.wpkh 3))
+      (descScriptSig (P false) (.wpkh 3) [ser false 3 ++ [1], (P false).env.ser 3])
+      (descWitness (P false) (.wpkh 3) [ser false 3 ++ [1], (P false).env.ser 3]) = .ok ∧
+    verifySpend (tE 0 0) (Desc.scriptPubkey (P false) (.sh (.wpkh 3)))
+      (descScriptSig (P false) (.sh (.wpkh 3)) [ser false 3 ++ [1], (P false).env.ser 3])
+      (descWitness (P false) (.sh (.wpkh 3)) [ser false 3 ++ [1], (P false).env.ser 3]) = .ok ∧
+    verifySpend (tE 0 0) (Desc.scriptPubkey (P true) (.tr 7 []))
+      (descScriptSig (P true) (.tr 7 []) [List.replicate 32 5 ++ [1]])
+      (descWitness (P true) (.tr 7 []) [List.replicate 32 5 ++ [1]]) = .ok :=
+  ⟨wpkh_spend_sound _ _ (ex_hashAgree false 0 0) 3 _ (ex_keyOk segwitFlags 0 0 DOM_SEGWITV0 3)
+     (by simp) (by simp [tE, P, ke]) (by decide),
+   sh_wpkh_spend_sound _ _ (ex_hashAgree false 0 0) 3 _ (ex_keyOk segwitFlags 0 0 DOM_SEGWITV0 3)
+     (by simp) (by simp [tE, P, ke]) (by decide),
+   tr_key_spend_sound _ _ 7 [] (by decide) _ (by decide)⟩
+
+/-- the conclusions also compute (independent of the theorems): direct evaluation of the flat
+interpreter with the limits on, and the lock really matters (nSequence one below the reported
+lock is rejected) -/
+example :
+    Script.accepts (mkEnv (tE 0 144) segwitFlags DOM_SEGWITV0) (encode (ke false) .segwitv0 Ex.ms)
+      (stk (tσ false) w) = true ∧
+    Script.accepts (mkEnv (tE 0 143) segwitFlags DOM_SEGWITV0) (encode (ke false) .segwitv0 Ex.ms)
+      (stk (tσ false) w) = false := by
   decide +kernel
 
-open Ex in
-/-- `dissat_sound` instantiated: `or_d(pk(K1),older(144))` is not `d` (no dissatisfaction), but
-`pk(K1)` is: its dissatisfaction `[<empty>]` leaves the empty vector -/
-example : Runs (frag (tEnv 0 0) ke .segwitv0 (pk 1)) (stk tσ [.pushZero] ++ [[5]]) ([] :: [[5]]) :=
-  (disRuns_B (c := Corr.pkK |> fun c => { c with base := .B }) rfl).mp
-    (dissat_sound (cfg := cfg1) (ex_envOk 0 0) (ex_agrees 0 0 _) (pk 1) ⟨⟨.B, .oneNonZero, true, true⟩, Mall.pkK⟩
-      (by simp [pk, WF]) (by decide) [.pushZero] (by decide) (by simp [LocksMet]; decide)) [[5]]
+end examples
 
 end MsVerif.C01
